@@ -152,6 +152,7 @@ def h_online(H):
 
 
 class GhostMtscomp:
+    _pyvc_ok = True
     """A-MTSCOMP: mtscomp.Reader after open(): .shape == (samples stored in the stream, channels)"""
 
     def __init__(self, shape):
